@@ -1027,10 +1027,12 @@ func trimJSONSpace(data native.JSON) native.JSON {
 	if len(data) == 0 {
 		return data
 	}
-	i, j := 0, len(data)-1
-	for ; lookupJSONSpace[data[i]] == 1; i++ {
+	i, j := 0, len(data)
+	for i < j && lookupJSONSpace[data[i]] == 1 {
+		i++
 	}
-	for ; lookupJSONSpace[data[j]] == 1; j-- {
+	for i < j && lookupJSONSpace[data[j-1]] == 1 {
+		j--
 	}
-	return data[i : j+1]
+	return data[i:j]
 }
